@@ -94,6 +94,8 @@ def cases(tier):
                             out.append(dict(kind="spline", chains=chains, N=N, grid=g, refine=r, inc=list(inc), dev=["Spline"]))
                             if r == 1:
                                 out.append(dict(kind="spline", chains=chains, N=N, grid=g, refine=r, inc=list(inc), with_offset=True, dev=["Spline", "offset"]))
+                                if inc == (True, True):
+                                    out.append(dict(kind="spline", chains=chains, N=N, grid=g, refine=r, inc=list(inc), with_offset="prev_t", dev=["Spline", "offset", "prev_t"]))
     return out
 
 
@@ -113,11 +115,11 @@ def run_spline(case):
     from . import c17
     from .. import core
     inc = tuple(case["inc"])
-    tags = (["second=next"] if case.get("with_offset") else []) + ["method=Spline", "chains=%s" % case["chains"], "N=%d" % case["N"], "grid=%s" % case["grid"], "refine=%d" % case["refine"], "include_first=%s" % inc[0], "include_last=%s" % inc[1]]
+    tags = (["second=%s" % ("prev_t" if case.get("with_offset") == "prev_t" else "next")] if case.get("with_offset") else []) + ["method=Spline", "chains=%s" % case["chains"], "N=%d" % case["N"], "grid=%s" % case["grid"], "refine=%d" % case["refine"], "include_first=%s" % inc[0], "include_last=%s" % inc[1]]
     vios = []
     n_refs = 1
     try:
-        n_missing, n_refs, n_extra = c17.spline_path_rows(case["chains"], case["N"], case["grid"], False, case["refine"], inc, with_offset=bool(case.get("with_offset")))
+        n_missing, n_refs, n_extra = c17.spline_path_rows(case["chains"], case["N"], case["grid"], False, case["refine"], inc, with_offset=case.get("with_offset", False))
         if n_missing:
             vios.append(dict(sig="missing:spline:path", tags=tags, detail="%d of %d declared instances of x<=3 are not in the NLP" % (n_missing, n_refs)))
         if n_extra:
@@ -127,7 +129,7 @@ def run_spline(case):
         if fr is None and not isinstance(e, (RuntimeError, AssertionError, AttributeError)):
             raise
         vios.append(dict(sig="exception:spline:%s" % (fr or type(e).__name__), tags=tags, detail="%s: %s" % (type(e).__name__, str(e)[:200])))
-    return dict(violations=vios, evaluations=n_refs, traces=1, transitions=1, outcome=explore.sha([case["chains"], case["N"], case["grid"], case["refine"], inc, bool(case.get("with_offset")), [v["sig"] for v in vios]]), nontrivial=True,
+    return dict(violations=vios, evaluations=n_refs, traces=1, transitions=1, outcome=explore.sha([case["chains"], case["N"], case["grid"], case["refine"], inc, str(case.get("with_offset")), [v["sig"] for v in vios]]), nontrivial=True,
                 sample=dict(kind="spline", chains=case["chains"], N=case["N"], grid=case["grid"], refine=case["refine"], inc=list(inc)))
 
 
@@ -150,7 +152,7 @@ def run_case(case):
 
 def describe(tier):
     return dict(
-        rule="(SplineMethod: chain programs x N x grid x refine 1..3 x include_first/include_last: instances of the path constraint = the kept refined points, none at an excluded end point, also next to a second constraint with a shifted operand) deviation-bounded enumeration over constraint form x grid option x include_first/last x second constraint x method/N/M/degree/grid/horizon (%d dims) plus the full constraint-dimension sub-product; canonical rows (equalities up to sign, inequalities as sense-preserving slacks incl. bounds) matched as multisets against the placement rule of the statement; unexplained real rows that are not pure time rows are violations; unplaceable constraints must raise; distinct = digest of row fingerprints" % len(DIMS),
+        rule="(SplineMethod: chain programs x N x grid x refine 1..3 x include_first/include_last: instances of the path constraint = the kept refined points, none at an excluded end point, also next to a second constraint with a shifted operand: next(x)-x, and x-prev(x) bounded by an expression of t) deviation-bounded enumeration over constraint form x grid option x include_first/last x second constraint x method/N/M/degree/grid/horizon (%d dims) plus the full constraint-dimension sub-product; canonical rows (equalities up to sign, inequalities as sense-preserving slacks incl. bounds) matched as multisets against the placement rule of the statement; unexplained real rows that are not pure time rows are violations; unplaceable constraints must raise; distinct = digest of row fingerprints" % len(DIMS),
         bound="k<=%d deviations + constraint sub-product" % (3 if tier == "thorough" else 2),
         assumptions=["CasADi Function evaluation and Opti bookkeeping are trusted", "generic-point alphabet for the numeric quantifier",
                      "offset operands are only enumerated on the control grid; an algebraic value off the collocation points is the value of the polynomial through the step's collocation values (the definition C07 checks for sampling)"])
